@@ -188,6 +188,7 @@ class Interp:
         self.tolerant = 0                   # >0: float comparisons with tolerance (replay of clauses)
         self.lemmas_used = set()
         self.inlined_functions = {}
+        self.cm_stack = []                  # @contextmanager generators currently being interpreted (innermost last)
 
     # ------------------------------------------------------------------ util
     @property
@@ -216,6 +217,7 @@ class Interp:
             raise PyRaise(exc)
         bound.apply_defaults()
         frame = Frame(dict(bound.arguments), f.__globals__, None, label or src.qualname)
+        frame.fn_obj = f
         if not self.call_stack:
             self.top_frame = frame        # locals of the function under verification (ghost access for its contract)
         if f.__closure__:
@@ -227,7 +229,8 @@ class Interp:
         return self.exec_body_as_call(src.node, frame)
 
     def exec_body_as_call(self, node, frame):
-        if not isinstance(node, ast.Lambda) and _is_generator(node):
+        if not isinstance(node, ast.Lambda) and _is_generator(node) \
+                and not (self.cm_stack and self.cm_stack[-1].fn is getattr(frame, "fn_obj", None)):
             # generator functions are evaluated eagerly: the yielded values are collected in order and handed out
             # as an iterator (differs from CPython only in WHEN side effects / exceptions of the body happen)
             frame.locals["__yields__"] = []
@@ -853,7 +856,10 @@ class Interp:
         raise OutsideSubset("yield outside a generator function")
 
     def e_Yield(self, node, frame):
-        self._yield_list(frame).append(None if node.value is None else self.eval(node.value, frame))
+        val = None if node.value is None else self.eval(node.value, frame)
+        if self.cm_stack and self.cm_stack[-1].fn is getattr(frame, "fn_obj", None):
+            return self.cm_stack[-1].yield_point(val)
+        self._yield_list(frame).append(val)
         return None
 
     def e_YieldFrom(self, node, frame):
@@ -947,6 +953,10 @@ class Interp:
         special = self.models.builtin_method_hook(self, f, args, kwargs)
         if special is not self.models.NOHOOK:
             return special
+        if not self.concrete and self.models.is_contextmanager_helper(f) and self.is_analysed(f.__wrapped__) \
+                and self.models.lookup_model(f) is None:
+            self.inlined_functions[id(f.__wrapped__.__code__)] = f.__wrapped__
+            return self.models.GenCM(self, f.__wrapped__, args, kwargs)
         if isinstance(f, Closure):
             return f(*args, **kwargs)
         if getattr(f, "__pyvc_native__", False):
